@@ -41,3 +41,72 @@ package zipslicer
 //@ func tarAddStream
 //@   property C09
 //@   before call io.CopyN(_, src, n): assert @member_body_is_exactly_the_announced_size n == size && src == r
+//@
+//@ macro fileOK(f *File) bool = len(f.lfhName) <= 65535 && len(f.lfhExtra) <= 65535 && (len(f.ddb) == 0 || len(f.ddb) == 16 || len(f.ddb) == 24) && \
+//@        f.Offset <= 2305843009213693952 && f.CompressedSize <= 2305843009213693952
+//@
+//@ func (*File).readLocalHeader
+//@   property C17
+//@   requires fileOK(f)
+//@   ensures @lengths_fit_their_16_bit_fields fileOK(f)
+//@   modifies f.lfh, f.lfhName, f.lfhExtra
+//@
+//@ func (*File).readDataDesc
+//@   property C17
+//@   requires fileOK(f)
+//@   ensures @file_invariant_kept fileOK(f)
+//@   ghost reads int = 0
+//@   before call invoke io.ReaderAt.ReadAt(_, b, off): assert @descriptor_follows_local_header_and_data \
+//@        reads == 0 ==> off == f.Offset + 30 + len(f.lfhName) + len(f.lfhExtra) + f.CompressedSize
+//@   before call invoke io.ReaderAt.ReadAt(_, b, off): assert @short_descriptor_read_first reads == 0 ==> len(b) == 16
+//@   before call invoke io.ReaderAt.ReadAt(_, b, off): assert @long_descriptor_tail_follows reads == 1 ==> len(b) == 8 && off == f.Offset + 30 + len(f.lfhName) + len(f.lfhExtra) + f.CompressedSize + 16
+//@   before call invoke io.ReaderAt.ReadAt(_, b, off): assert @at_most_two_reads reads <= 1
+//@   on call invoke io.ReaderAt.ReadAt(_, _, _) ret (n, e): reads = reads + 1
+//@   ensures @descriptor_is_16_or_24_bytes ret0 == nil && len(f.ddb) != 0 ==> len(f.ddb) == 16 || len(f.ddb) == 24
+//@   modifies f.lfh, f.lfhName, f.lfhExtra, f.ddb, f.CRC32
+//@
+//@ func (*File).GetTotalSize
+//@   property C17
+//@   requires fileOK(f)
+//@   ensures @file_invariant_kept fileOK(f) && (ret1 == nil ==> 30 <= ret0 && ret0 <= 2305843009213693952 + 131124)
+//@   ensures @total_is_header_name_extra_data_descriptor ret1 == nil ==> ret0 == 30 + len(f.lfhName) + len(f.lfhExtra) + len(f.ddb) + f.CompressedSize
+//@   modifies f.lfh, f.lfhName, f.lfhExtra, f.ddb, f.CRC32
+//@
+//@ func (*File).GetDirectoryHeader
+//@   property C17
+//@   before call encoding/binary.Write(_, _, v): assert @zip64_extra_exactly_when_a_field_overflows istype(v, zipCentralDir) ==> \
+//@        ((old(f.CompressedSize) >= 4294967295 || old(f.UncompressedSize) >= 4294967295 || old(f.Offset) >= 4294967295) == (unbox(v, zipCentralDir).Offset == 4294967295 && \
+//@             unbox(v, zipCentralDir).CompressedSize == 4294967295 && unbox(v, zipCentralDir).UncompressedSize == 4294967295 && unbox(v, zipCentralDir).ReaderVersion == 45)) && \
+//@        (old(f.CompressedSize) < 4294967295 && old(f.UncompressedSize) < 4294967295 && old(f.Offset) < 4294967295 ==> unbox(v, zipCentralDir).Offset == old(f.Offset) && \
+//@             unbox(v, zipCentralDir).CompressedSize == old(f.CompressedSize) && unbox(v, zipCentralDir).UncompressedSize == old(f.UncompressedSize))
+//@   before call encoding/binary.Write(_, _, v): assert @zip64_extra_carries_the_real_values istype(v, zip64Extra) ==> \
+//@        unbox(v, zip64Extra).Offset == old(f.Offset) && unbox(v, zip64Extra).CompressedSize == old(f.CompressedSize) && \
+//@        unbox(v, zip64Extra).UncompressedSize == old(f.UncompressedSize) && unbox(v, zip64Extra).Signature == 1 && unbox(v, zip64Extra).RecordSize == 24
+//@   ensures @cached_original_bytes_reused old(len(f.raw)) > 0 ==> sameslice(ret0, old(f.raw)) && ret1 == nil
+//@
+//@ func (*Directory).AddFile
+//@   property C17 C03
+//@   requires fileOK(f) && 0 <= d.DirLoc && d.DirLoc <= 2305843009213693952
+//@   ghost size int = 0
+//@   on call (*File).GetTotalSize(_) ret (n, e): size = n
+//@   ensures @member_placed_at_the_end_of_the_contents ret1 == nil ==> f.Offset == old(d.DirLoc)
+//@   ensures @contents_end_advances_by_the_member_size ret1 == nil ==> d.DirLoc == old(d.DirLoc) + size
+//@   ensures @member_appended_to_the_directory ret1 == nil ==> len(d.File) == old(len(d.File)) + 1 && d.File[len(d.File)-1] == f
+//@   ensures @cached_header_dropped_when_the_member_moved ret1 == nil && old(f.Offset) != old(d.DirLoc) ==> len(f.raw) == 0
+//@
+//@ func (*Directory).WriteDirectory
+//@   property C17
+//@   requires weod != nil && 0 <= d.DirLoc && d.DirLoc <= 2305843009213693952
+//@   before call (*bufio.Writer).Reset(_, w): assert @end_records_go_to_a_real_writer w != nil
+//@   before call encoding/binary.Write(_, _, v): assert @end_record_describes_the_directory istype(v, zipEndRecord) && !(minVersion == 45) ==> \
+//@        unbox(v, zipEndRecord).TotalCDCount == count && unbox(v, zipEndRecord).DiskCDCount == count && unbox(v, zipEndRecord).CDSize == size && \
+//@        unbox(v, zipEndRecord).CDOffset == cdoff && unbox(v, zipEndRecord).Signature == 101010256
+//@   before call encoding/binary.Write(_, _, v): assert @zip64_end_record_describes_the_directory istype(v, zip64End) ==> \
+//@        unbox(v, zip64End).TotalCDCount == count && unbox(v, zip64End).CDSize == size && unbox(v, zip64End).CDOffset == cdoff && \
+//@        (count >= 65535 || size >= 4294967295 || cdoff >= 4294967295 || forceZip64 || minVersion == 45)
+//@   before call encoding/binary.Write(_, _, v): assert @zip64_locator_points_behind_the_directory istype(v, zip64Loc) && size <= 2305843009213693952 ==> unbox(v, zip64Loc).Offset == cdoff + size
+//@
+//@ func (*Directory).GetOriginalDirectory
+//@   property C17
+//@   before call encoding/binary.Write(_, _, v): assert @absent_zip64_records_are_not_emitted \
+//@        (istype(v, zip64End) ==> unbox(v, zip64End).Signature != 0) && (istype(v, zip64Loc) ==> unbox(v, zip64Loc).Signature != 0)
